@@ -61,8 +61,7 @@ func streamCase(ctx *Ctx, max int, wire []byte, sched []readEv, exp *streamExpec
 		recvs, more, tr = sr.Run(max, wire, sched, sr.Options{MeasureAlloc: measure})
 		return 0
 	})
-	c0 := sr.C0(recvs)
-	line = sr.Line(max, c0, wire, sched)
+	line = sr.LineC(max, sr.C0s(recvs), wire, sched)
 	if exp != nil && exp.implOnly {
 		line = "#" + line
 	}
@@ -455,7 +454,9 @@ func runStream(ctx *Ctx) {
 		}
 	}
 	// announced lengths around the limit, exhaustively near the boundary
-	for _, max := range []int{16, 24, 512, 520, 1024, srvMax} {
+	// (limits that are not a multiple of 8 as well: the limit applies to the padded size of the message, so with
+	// max = 1001 a value of 993 bytes — 8 + 993 = 1001, but 1008 bytes on the wire — is over the limit)
+	for _, max := range []int{16, 24, 512, 520, 1024, srvMax, 13, 21, 515, 1001, 1029, srvMax - 3} {
 		for l := max - 24; l <= max+8; l++ {
 			if l < 0 || (max > 1<<16 && !ctx.Thor && l < max-9 && l != max-16) {
 				continue
